@@ -1,4 +1,4 @@
-(* C44 (c): orthotropic plane-stress class while defect F24 is observed: the positive statement is refuted by a witness *)
+(* C44 (c): orthotropic plane-stress class while defect F-C44b is observed: the positive statement is refuted by a witness *)
 From Coq Require Import Reals List.
 From C44 Require Import C44PS_gen C44PSStatements C44ProofsPS C44ProofsPSOrthoRefuted.
 
